@@ -1,4 +1,5 @@
 import Aldy.Driver.C05
+import Aldy.Driver.C01
 import Aldy.Driver.C02
 import Aldy.Driver.C03
 import Aldy.Driver.C18
@@ -45,6 +46,8 @@ def dispatch (j : Json) : Except String Json := do
   | "coords" => opCoords j
   | "catalogue" => opCatalogue j
   | "minor_build" => opMinorBuild j
+  | "planted_major" => opPlantedMajor j
+  | "planted_minor" => opPlantedMinor j
   | "minor_readout" => opMinorReadout j
   | "vcf_load" => opVcfLoad j
   | "dump" => opDump j
